@@ -200,3 +200,30 @@ package commonmark
 //@   callsite parseCodeFence: use FirstNonWS_at($0, FenceRun($0), BodyLen($0))
 //@   unclaimed pre@parseCodeFence the line handed to the recogniser has at most one line ending, at its end (established by readline; not carried through the block-structure code)
 //@   serves C13, C04
+
+//@ func closure(hasBytePrefix&(*lineParser).OpenBlock)
+//@   requires !isnil(p) && CursorOK(p)
+//@   modifies everything
+//@   havoccall (*lineParser).OpenBlock keeps lineParser.i, lineParser.col, lineParser.line, lineParser.tabRemaining, elems:byte
+//@   -- a block quote starts with '>'
+//@   callsite (*lineParser).OpenBlock: requires[at-marker] $1 == BlockQuoteKind && p.i < len(p.line) && p.line[p.i] == '>'
+//@   callsite (*lineParser).ConsumeIndent: use IndentCols_zero(p.line, p.i + 1, p.col + 1)
+//@   callsite (*lineParser).ConsumeIndent: use IndentCols_zero(p.line, p.i + 1, p.col + p.tabRemaining)
+//@   serves C13, C04
+
+//@ func closure(parseThematicBreak)
+//@   requires !isnil(p) && CursorOK(p)
+//@   modifies everything
+//@   havoccall (*lineParser).OpenBlock, (*lineParser).EndBlock keeps lineParser.i, lineParser.col, lineParser.line, lineParser.tabRemaining, elems:byte
+//@   callsite (*lineParser).OpenBlock: requires[kind] $1 == ThematicBreakKind
+//@   callsite (*lineParser).ConsumeIndent: use IndentCols_zero(p.line, p.i + 1, p.col + 1)
+//@   callsite (*lineParser).ConsumeIndent: use IndentCols_zero(p.line, p.i + 1, p.col + p.tabRemaining)
+//@   unclaimed pre@parseThematicBreak the line handed to the recogniser has at most one line ending, at its end (established by readline; not carried through the block-structure code)
+//@   serves C04
+
+//@ func closure((*lineParser).TipKind)
+//@   requires !isnil(p) && CursorOK(p)
+//@   modifies everything
+//@   havoccall (*lineParser).TipKind, (*lineParser).OpenBlock keeps lineParser.i, lineParser.col, lineParser.line, lineParser.tabRemaining, elems:byte
+//@   callsite (*lineParser).OpenBlock: requires[kind] $1 == IndentedCodeBlockKind
+//@   serves C04
